@@ -51,8 +51,8 @@ Inductive lstr :=
 Inductive lty :=
 | LNone | LBool (t : tok) | LInt32 (t : tok) | LUint32 (t : tok) | LInt64 (t : tok) | LUint64 (t : tok)
 | LFloat (t : tok) | LDouble (t : tok) | LTimestamp (t : tok) | LDate (t : tok) | LDecimal (t : tok)
-| LAny (t : tok) | LEnum (t : tok) | LString (s : lstr)
-| LOther.   (* fixed*, sfixed*, sint*, oneof *)
+| LAny (t : tok) | LEnum (t : tok) | LOneof (t : tok) | LString (s : lstr)
+| LOther.   (* fixed*, sfixed*, sint* *)
 
 (* ---- (j5.ext.v1.field), (j5.ext.v1.key) ----------------------------------- *)
 Inductive strbounds := StrBounds (minimum maximum : option str) (exmin exmax : option bool).
@@ -62,7 +62,7 @@ Inductive j5ty :=
 | JArray (single : option str) | JMap (single : option str)
 | JDate (rules : option strbounds) | JDecimal (rules : option strbounds) | JKey (k : keyopt) | JAny (only_defined : bool) (types : list str)
 | JOther.
-Inductive psmkey := PsmKey (primary : bool) (foreign : option tok).
+Inductive psmkey := PsmKey (primary : bool) (foreign : option tok) (tenant : option str).
 
 Inductive fopts := FOpts (validate : option fcon) (lst : option lty) (j5 : option j5ty) (key : option psmkey).
 
